@@ -265,6 +265,64 @@ def extract(tree):
         ops = [o for o in mem_ops(body, fn) if o not in ("consume", "eof", "flush", "error", "produce", "produce_wrapped", "status")]
         if ops:
             raise ExtractError("%s touches the parser stacks (%s) but is not modelled" % (fn, ",".join(ops)))
+    # ---- ownership of the pending error message: every write to `->error` / `->flag` anywhere in parse.c, per function in source order,
+    #      and the read in `parsermark`.  `error = (const char *) janet_string(..)` is the one site that stores a GC heap string; it must
+    #      come with `flag |= JANET_PARSER_GENERATED_ERROR` (parsermark keeps the string alive iff that bit is set).
+    EW = [
+        (r"->error\s*=\s*\(\s*const\s+char\s*\*\s*\)\s*janet_string\s*\(", "error=heap"),
+        (r"->error\s*=\s*\"(?:[^\"\\]|\\.)*\"\s*;", "error=static"),
+        (r"->error\s*=\s*NULL\s*;", "error=NULL"),
+        (r"->flag\s*\|=\s*JANET_PARSER_GENERATED_ERROR\s*;", "flag|=GENERATED_ERROR"),
+        (r"->flag\s*\|=\s*JANET_PARSER_DEAD\s*;", "flag|=DEAD"),
+        (r"->flag\s*&=\s*~\s*JANET_PARSER_GENERATED_ERROR\s*;", "flag&=~GENERATED_ERROR"),
+        (r"->flag\s*=\s*0\s*;", "flag=0"),
+        (r"->flag\s*=(?!=)\s*([^;]{0,40});", "flag=\\1"),
+        (r"->flag\s*(\|=|&=|\^=|\+=|-=)\s*([^;]{0,40});", "flag\\1\\2"),
+        (r"->error\s*=(?!=)\s*([^;]{0,40});", "error=\\1"),
+    ]
+    ew_rx = [(re.compile(rx), nm) for rx, nm in EW]
+    err_writes = []
+    for fn, body in all_functions(src):
+        evs, i = [], 0
+        while i < len(body):
+            hit = None
+            if body.startswith("->", i):
+                for rx, nm in ew_rx:
+                    m = rx.match(body, i)
+                    if m:
+                        hit = (m, norm(m.expand(nm)))
+                        break
+            if hit:
+                evs.append(hit[1])
+                i = hit[0].end()
+            else:
+                i += 1
+        # a consumer that latches a static message does nothing else with the two fields: collapse repeats
+        if evs:
+            coll = []
+            for e in evs:
+                if not (coll and coll[-1] == e == "error=static"):
+                    coll.append(e)
+            err_writes.append((fn, coll))
+    c["errFlagWrites"] = err_writes
+    c["staticErrors"] = sorted(set(re.findall(r"->error\s*=\s*(\"(?:[^\"\\]|\\.)*\")\s*;", src)))
+    calls = re.findall(r"\bdelim_error\s*\(([^;{}]*)\)\s*;", src)
+    msgs = []
+    for a in calls:
+        m = re.search(r",\s*(\"(?:[^\"\\]|\\.)*\")\s*$", a.strip())
+        if not m:
+            raise ExtractError("delim_error call whose message is not a string literal: delim_error(%s)" % norm(a))
+        msgs.append(m.group(1))
+    if not msgs:
+        raise ExtractError("no delim_error call found")
+    c["delimMessages"] = sorted(set(msgs))
+    body = csrc.func_body(src, "parsermark")
+    if not re.search(r"if\s*\(\s*parser->flag\s*&\s*JANET_PARSER_GENERATED_ERROR\s*\)\s*\{\s*janet_mark\s*\(\s*janet_wrap_string\s*\(\s*\(\s*const\s+uint8_t\s*\*\s*\)\s*"
+                     r"parser->error\s*\)\s*\)\s*;\s*\}", body):
+        raise ExtractError("parsermark: `if (flag & JANET_PARSER_GENERATED_ERROR) janet_mark(error string)` not recognised")
+    body = csrc.func_body(src, "janet_parser_checkdead")
+    if not re.fullmatch(r"\{if\(parser->flag\)janet_panic\(\"[^\"]*\"\);if\(parser->error\)janet_panic\(\"[^\"]*\"\);\}", norm(body)):
+        raise ExtractError("janet_parser_checkdead: shape changed: %s" % norm(body)[:200])
     # ---- flags
     for name in ("PFLAG_CONTAINER", "PFLAG_BUFFER", "PFLAG_PARENS", "PFLAG_SQRBRACKETS", "PFLAG_CURLYBRACKETS", "PFLAG_STRING", "PFLAG_LONGSTRING",
                  "PFLAG_READERMAC", "PFLAG_ATSYM", "PFLAG_COMMENT", "PFLAG_TOKEN", "PFLAG_INSTRING", "PFLAG_END_CANDIDATE", "JANET_PARSER_DEAD",
@@ -512,5 +570,13 @@ def render(tree):
     L.append("/-- memory events (stack primitive calls, count updates, indexed accesses) of every parse.c function that `Parse/Phys.lean` mirrors, in source order -/")
     L.append("abbrev memOps : List (String × List String) := [\n  %s]" % ",\n  ".join(
         '("%s", [%s])' % (fn, ", ".join('"%s"' % o for o in ops)) for fn, ops in c["memOps"]))
+    L.append("/-- every write to `->error` / `->flag` in parse.c, per function, in source order (`error=heap`: the `janet_string` of `delim_error`; "
+             "`error=static`: a string literal; consecutive literal sites of one function merged) -/")
+    L.append("abbrev errFlagWrites : List (String × List String) := [\n  %s]" % ",\n  ".join(
+        '("%s", [%s])' % (fn, ", ".join('"%s"' % o.replace('"', "'") for o in ops)) for fn, ops in c["errFlagWrites"]))
+    L.append("/-- the string literals assigned to `->error` (static storage: never marked, never freed) -/")
+    L.append("abbrev staticErrors : List String := [%s]" % ", ".join(c["staticErrors"]))
+    L.append("/-- the message arguments of the `delim_error` calls (the generated heap string starts with one of them) -/")
+    L.append("abbrev delimMessages : List String := [%s]" % ", ".join(c["delimMessages"]))
     L.append("\nend JanetModel.Gen.Parse")
     return "\n".join(L) + "\n"
